@@ -322,7 +322,7 @@ def main():
     if len(funcs) < 10:
         print("HARNESS-ERROR: no vnaconv functions found")
         sys.exit(2)
-    per_fn = 12 if chk.tier == "quick" else 600
+    per_fn = 40 if chk.tier == "quick" else 600
     per_fn = max(1, int(per_fn * chk.args.scale))
     nchunks = 16
     payloads = [(chk.seed, chk.tier, funcs, per_fn, binary, chk.workroot)
